@@ -414,6 +414,12 @@ private:
             ec = bson_errc::expected_bson_document;
             JSONCONS_VISITOR_RETURN;
         }
+        if (raw_tag > (std::numeric_limits<uint8_t>::max)())
+        {
+            // the subtype of a binary value is a single byte
+            ec = bson_errc::number_too_large;
+            JSONCONS_VISITOR_RETURN;
+        }
         before_value(jsoncons::bson::bson_type::binary_type);
 
         std::size_t offset = buffer_.size();
